@@ -252,6 +252,13 @@ def run_check(prop, tier, seed, replay=None, only=None, jobs=None, verbose=False
         mod.setup(tier)
 
     if replay is not None:
+        try:
+            with open(replay) as f:
+                rtier = json.load(f).get("tier", tier)
+        except Exception:
+            rtier = tier
+        if rtier != tier and hasattr(mod, "setup"):
+            mod.setup(rtier)         # tier-dependent alphabets: replay in the tier that recorded the failure
         return _replay(mod, replay)
 
     cases = list(mod.cases(tier))
